@@ -1,7 +1,7 @@
 (* C17 — export failures are returned as errors and do not poison later exports.  Statements only; proofs in
    Proofs/ExportSM_proofs.v over Model/ExportSM.v (outcomes Ok / Err / Panic; the file system fails exactly where the
    property lists obstacles). *)
-From TsRs Require Import Base.Str Base.Outcome Gen.Tables Model.Path Model.Merge Model.Imports Model.ExportSM
+From TsRs Require Import Base.Str Base.Outcome Gen.Tables Model.Path Model.Merge Model.MergeSpec Model.Imports Model.ExportSM
   Spec.PathOracle Proofs.Path_proofs Proofs.ExportSM_proofs.
 From Coq Require Import List.
 Import ListNotations.
@@ -31,6 +31,25 @@ Theorem C17_failed_export_all_touches_nothing_else :
     (forall q, ~ (exists j, reach U i j /\ target cfg U j dir = Some q) ->
        forall c, fs_get (s_fs st') q = Some (File c) <-> fs_get (s_fs st) q = Some (File c)).
 Proof. intros cfg U st i dir st' r Hc H. destruct (export_all_frame cfg U Hc st i dir st' r H) as (A & B & _). split; [exact A | exact B]. Qed.
+
+(* a failed T::export() contributes nothing to any file: what every file is made of (its view as C05's single-file model:
+   recorded names + content) is exactly what it was *)
+Theorem C17_failed_export_contributes_nothing :
+  forall cfg U st i st' e, names_ok (c_cwd cfg) ->
+    step cfg U st (Export i) = (st', Err e) -> forall q, view st' q = view st q.
+Proof. intros cfg U st i st' e Hc. exact (failed_export_views cfg U Hc st i st' e). Qed.
+
+(* THE retry statement: for every history of exports — failing or not, retried or not — interleaved with obstacles being placed
+   and removed anywhere that is not at or above an already recorded file: every file of the final state is the result of a sequence of
+   single-file exports, each the contribution of a type some call of the history exports to that path.  Failed calls and
+   obstacles contribute nothing, so (C06_history_independent / C05) the final files are those of the history in which the
+   failures never happened *)
+Theorem C17_obstacles_and_failures_leave_no_trace :
+  forall cfg U h st st' rs, names_ok (c_cwd cfg) ->
+    clear_history cfg U st h -> run cfg U st h = (st', rs) -> Inv st ->
+    Inv st' /\ forall q, exists l, run_raw (view st q) l = Ok (view st' q) /\
+                               Forall (fun it => exists j, (exists o, In o h /\ op_targets cfg U o j q) /\ contribution cfg U j it) l.
+Proof. intros cfg U h st st' rs Hc Hh H. exact (run_refines_with_obstacles cfg U Hc h st st' rs Hh H). Qed.
 
 (* the four obstacles are errors, never panics, with the state as it was: *)
 (* .. the type is not exportable (every entry point) *)
@@ -89,6 +108,8 @@ Proof. repeat split; vm_compute; reflexivity. Qed.
 Print Assumptions C17_failed_write_changes_nothing.
 Print Assumptions C17_failed_export_is_not_recorded.
 Print Assumptions C17_failed_export_all_touches_nothing_else.
+Print Assumptions C17_failed_export_contributes_nothing.
+Print Assumptions C17_obstacles_and_failures_leave_no_trace.
 Print Assumptions C17_not_exportable_is_an_error.
 Print Assumptions C17_above_root_is_an_error.
 Print Assumptions C17_target_is_a_directory_is_an_error.
